@@ -139,6 +139,8 @@ def _dress(rng, o, pardim, order, refine, repeat_knot, rational, right_handed, b
             have = sum(1 for x in o.knots(d_, with_multiplicities=True) if abs(x - 0.5) < 1e-12)
             if have < 2:
                 o.insert_knot([0.5] * (2 - have), d_)
+    if rational == 'mixed':
+        rational = rng.random() < 0.5       # per patch: rational and polynomial patches share vertices, edges and faces
     if rational:
         o.force_rational()
     ors = orientations(pardim)
@@ -177,7 +179,7 @@ def build(rng, pardim, dim=None, order=2, refine=0, rational=False, right_handed
                 have = sum(1 for x in o.knots(d_, with_multiplicities=True) if abs(x - 0.5) < 1e-12)
                 if have < 2:
                     o.insert_knot([0.5] * (2 - have), d_)
-        if rational:
+        if (rng.random() < 0.5) if rational == 'mixed' else rational:
             o.force_rational()
         ors = orientations(pardim)
         while True:
